@@ -302,7 +302,8 @@ fn deserialize<'a>(ty: &OwnedDataModelType, data: &'a [u8]) -> Result<(Value, &'
                 }
             }
         }
-        OwnedDataModelType::Schema => todo!(),
+        // a schema-typed value would need the schema-of-schemas; report it instead of panicking
+        OwnedDataModelType::Schema => Err(Error::ShouldSupportButDont),
     }
 }
 
